@@ -87,12 +87,12 @@ func c07ProbeBlank(t *testing.T, out *verifh.Out) {
 		return res
 	}
 	var lines [][]int64
-	// one case line per situation, in the wire format of Spec.v (kind 3 = blank hosts):
+	// one case line per situation, in the wire format of Spec.v (kind 9 = the blank-host probe):
 	//   SetStreamHandler(p) on the listener; one open for [p]
 	run := func(name string, p int64) {
 		out.Cover("probe.blank." + name + ".runs")
 		bl.SetStreamHandler(c07Names[p], h)
-		line := []int64{7, 3, 1, c07U}
+		line := []int64{7, 9, 1, c07U}
 		line = append(line, limD...)
 		line = append(line, limL...)
 		line = append(line, 1, p, 1, p)
